@@ -36,6 +36,20 @@ fn main() {
     if !matches!(args[1].as_str(), "proc" | "selfcheck") {
         util::start_call_watchdog(120_000, format!("{} {}", args[1], args[2]));
     }
+    let run = std::panic::catch_unwind(std::panic::AssertUnwindSafe(|| run_suite(&args, seed, &tier, &inp, &out)));
+    if run.is_err() {
+        // a panic that no `guarded` call caught: in the repository's code it is a finding (exit status 4, record on stderr),
+        // anywhere else it is a failure of the harness itself (exit status 101)
+        if let Some((file, line, msg)) = util::unguarded_panic_in_code_under_test() {
+            eprintln!("{}", serde_json::json!({"rec": "unguarded_panic", "what": format!("{} {}", args[1], args[2]), "file": file, "line": line, "msg": msg}));
+            std::process::exit(4);
+        }
+        std::process::exit(101);
+    }
+}
+
+fn run_suite(args: &[String], seed: u64, tier: &str, inp: &str, out: &str) {
+    let (tier, inp, out) = (tier.to_string(), inp.to_string(), out.to_string());
     match (args[1].as_str(), args[2].as_str()) {
         ("merkle", "replay") => s_merkle::replay(&inp),
         ("merkle", "record") => s_merkle::record(seed, &tier, &out),
